@@ -103,7 +103,7 @@ def r1_one_model_per_queue(ctx: Context) -> None:
     models = _cls(ctx, "Models")
     ma = method(models, "add_task")
     calls = [c for c in calls_in(ma, "add_task") if isinstance(c.func.value, ast.Subscript)]
-    ok = bool(calls) and norm(calls[0].func.value) == "self._models[task.profile.id]" and norm(calls[0].args[0]) == "task"
+    ok = bool(calls) and ast.unparse(resolve_local(ma, calls[0].func.value)) == "self._models[task.profile.id]" and norm(calls[0].args[0]) == "task"
     ctx.check(ok, "C15.R1", "Models.add_task|routes by the task's profile id", loc(ma), "self._models[task.profile.id].add_task(task)", "routing changed")
     mi = method(model, "id")
     ctx.check(any(isinstance(x, ast.Return) and norm(x.value) == "self._profile.id" for x in ast.walk(mi)), "C15.R1", "Model.id|profile id", loc(mi), "ok", "Model.id changed")
